@@ -52,9 +52,9 @@ def run(ck: Checker):
                     probs.append('the handler does not bind the exception: the request would get no outcome')
                     continue
                 # the bound exception becomes this request's value: assigned to the variable that carries the result/input
-                body_assign = [k for k in cfg.nodes if isinstance(k.ast, ast.Assign) and is_name(k.ast.value, dst.ast.name) and k.id in reachable(cfg, [dst.id], avoid={loop})]
-                if not body_assign:
-                    probs.append('the caught exception is not stored as the request\'s value')
+                used = [k for k in cfg.nodes if k.id in reachable(cfg, [dst.id], avoid={loop}) and k.id != dst.id and header_expr(k) is not None and any(isinstance(x, ast.Name) and x.id == dst.ast.name for x in walk_shallow(header_expr(k)))]
+                if not used:
+                    probs.append('the caught exception is dropped: the request would get no outcome (or a wrong one)')
                 # stays in the loop: no path from the handler out of the loop that avoids the loop head ... (leaving by return/raise)
                 out_nodes = {k.id for k in cfg.nodes if loop not in k.loops and k.id != loop}
                 next_req = {k.id for k in cfg.nodes if header_expr(k) is not None and any(method_of(c)[1] in ('get', 'get_nowait') for c in calls_in(header_expr(k)))}
